@@ -331,11 +331,10 @@ def Ctx.opLeaveC (c : Ctx) (a : Actor) (tn : TName) (viaChn : Bool) (unsub : Boo
   | none => c
   | some t =>
     let asChan := viaChn && t.isChan
-    -- a non-channel topic addressed as a channel: 404, and the request goes on as if addressed by the group name
-    let c := if viaChn ∧ !t.isChan then c.emit a.sid (ctrl 404 tn) else c
+    -- a topic which is not a channel addressed as one: 404 and nothing else
+    if viaChn ∧ !t.isChan then c.emit a.sid (ctrl 404 tn) else
     if t.inactive then (if a.uid ≠ "" then c.emit a.sid (ctrl 503 tn) else c) else
     if unsub then
-      if viaChn ∧ !t.isChan then c else
       let (c, t) := c.replyLeaveUnsubC t a asChan
       c.putLive t
     else
